@@ -257,6 +257,9 @@ class Activity(object):
             return True
         if isinstance(b, tuple) and b[0] == 'time':
             return W.clock >= b[1]
+        if isinstance(b, Wait):
+            return b.notified or (b.deadline is not None
+                                  and W.clock >= b.deadline)
         return False
 
     def descriptor(self):
@@ -270,15 +273,30 @@ class Activity(object):
         self.steps += 1
         if isinstance(self.blocked_on, tuple) and self.blocked_on[0] == 'time':
             self.blocked_on = None
+        if isinstance(self.blocked_on, Wait):
+            self.blocked_on = None
         W.last_act = self
         self.g.switch()
         if self.done:
             GL.drop(self.g)
 
 
+class Wait(object):
+    """Blocked on a condition variable (optionally with a timeout)."""
+
+    def __init__(self, what, deadline=None):
+        self.what = what
+        self.deadline = deadline
+        self.notified = False
+
+
 def _blocked_desc(b):
     if b is None:
         return None
+    if isinstance(b, Wait):
+        return 'wait:%s:%s:%s' % (
+            b.what, b.notified,
+            None if b.deadline is None else b.deadline - W.clock)
     if isinstance(b, Msg):
         return 'msg:' + b.desc()
     if isinstance(b, tuple):
@@ -309,8 +327,16 @@ def _get_session():
 db_base._get_session = _get_session
 
 
+_RAW = []
+
+
 def raw_conn():
-    return db_base.get_engine().raw_connection().driver_connection
+    """The single sqlite3 connection behind the StaticPool.  The pool fairy
+    is kept alive for ever: returning it would emit a ROLLBACK on the shared
+    connection behind SQLAlchemy's back."""
+    if not _RAW:
+        _RAW.append(db_base.get_engine().raw_connection())
+    return _RAW[0].driver_connection
 
 
 # ---------------------------------------------------------------- threads
@@ -576,6 +602,7 @@ class LegacyDriver(object):
 
     def __init__(self, name='S0'):
         self.name = name
+        self.crashed = False
         self.sched = legacy_scheduler.LegacyScheduler(CONF.scheduler)
 
     def due(self):
@@ -605,6 +632,7 @@ class LegacyDriver(object):
     def start_poll(self):
         a = Activity('poll', self.name,
                      lambda: self.sched._process_delayed_calls())
+        a.owner = self.name
         W.poll_active[self.name] = a
         W.acts.append(a)
         return a
@@ -747,6 +775,9 @@ def next_clock_event():
         if not a.done and isinstance(b, tuple) and b[0] == 'time' \
                 and b[1] > W.clock:
             ts.append(b[1])
+        if not a.done and isinstance(b, Wait) and not b.notified \
+                and b.deadline is not None and b.deadline > W.clock:
+            ts.append(b.deadline)
     return min(ts) if ts else None
 
 
